@@ -57,6 +57,11 @@ def sources(s, i, tmpdir):
     else:
         doc = gen.rand_message(rng, state, kind, rng.randint(1, 99999), gen.Ids('d%d.' % i), pool=pool)
     enc = ENCODINGS[i % len(ENCODINGS)]
+    judge_sources(s, doc, enc, kind, tmpdir, i)
+
+
+def judge_sources(s, doc, enc, kind, tmpdir, i=0):
+    MosFile = s.mt.MosFile
     data = encode(doc, enc)
     path = os.path.join(tmpdir, 'doc%d.mos.xml' % (i % 7))
     with open(path, 'wb') as f:
@@ -105,6 +110,10 @@ def readers(s, i, tmpdir):
     for k in range(rng.randint(1, 8)):
         kind = K.weighted_kinds(rng, K.kind_weights(1, 1, 0.5, 0.05))
         docs.append(gen.rand_message(rng, state, kind, 10 + 3 * k, ids, pool=pool))
+    judge_readers(s, docs, tmpdir, rng)
+
+
+def judge_readers(s, docs, tmpdir, rng):
     texts = {}
     for how in ('strings', 'files', 's3'):
         shuffled = list(docs)
@@ -158,14 +167,22 @@ def listings(s, i):
             stem = stem + suffix + 'mid'
         keys.append(stem + ending)
     rng.shuffle(keys)
+    judge_listing(s, keys, prefixes + [None], suffix, rng.randint(1, 7), rng.random() < 0.5)
+
+
+def judge_listing(s, keys, prefixes, suffix, page_size, default_kw=False):
+    import mosromgr.utils.s3 as s3mod
+    f3 = K.ensure_fake_s3()
+    bucket = 'lst'
+    n = len(keys)
     f3.BUCKETS[bucket] = [(k, b'<mos/>') for k in keys]
-    f3.CONFIG['page_size'] = rng.randint(1, 7)
-    for prefix in prefixes + [None]:
+    f3.CONFIG['page_size'] = page_size
+    for prefix in prefixes:
         # fresh lazy handle: at most one client, no resource, only on first use
         s3mod.s3._client = None
         s3mod.s3._resource = None
         c0 = dict(f3.CALLS)
-        kw = {} if suffix == '.mos.xml' and rng.random() < 0.5 else {'suffix': suffix}
+        kw = {} if suffix == '.mos.xml' and default_kw else {'suffix': suffix}
         try:
             got = s3mod.get_mos_files(bucket, prefix, **kw)
             got2 = s3mod.get_mos_files(bucket, prefix, **kw)
@@ -214,8 +231,18 @@ def run(s):
 
 def replay(s, data):
     w = data['witness']
-    s.notes.append('C18 witnesses are self-describing; re-run the quick tier to re-judge')
-    s.evaluations += 1
+    tmpdir = tempfile.mkdtemp(prefix='verif-c18-')
+    try:
+        if w.get('type') == 'sources':
+            judge_sources(s, w['doc'], w['encoding'], 'replay', tmpdir)
+        elif w.get('type') == 'readers':
+            judge_readers(s, w['docs'], tmpdir, s.rng('replay'))
+        elif w.get('type') == 'listing':
+            judge_listing(s, w['keys'], [w['prefix']], w['suffix'], w['page_size'])
+        else:
+            s.notes.append('unknown witness type')
+    finally:
+        shutil.rmtree(tmpdir, ignore_errors=True)
 
 
 def gates(agg, tier):
